@@ -243,6 +243,7 @@ macro_rules! dispatch {
             "C20" => $f(&props::c20::C20, $($args),*),
             "C21" => $f(&props::c21::C21, $($args),*),
             "C22" => $f(&props::c22::C22, $($args),*),
+            "C23" => $f(&props::c23::C23, $($args),*),
             "C24" => $f(&props::c24::C24, $($args),*),
             "C25" => $f(&props::c25::C25, $($args),*),
             "C26" => $f(&props::c26::C26, $($args),*),
